@@ -334,5 +334,6 @@ func checkC01(args []string) {
 		run.Violate("independent-reader|"+string(parts[1]), string(parts[0])+": "+why, string(parts[0]))
 	}
 	run.Cov["streams_decoded_by_the_tla_reader"] = len(lines)
+	validateCodeDescriptions(run)
 	run.Finish()
 }
